@@ -128,22 +128,20 @@ Definition parse_f64 (s : str) : option xq :=
 Local Close Scope Q_scope.
 Definition dec_of_N (n : N) : str := dec_digits (S (N.to_nat (N.size n))) n [].
 
-Fixpoint log2_exact (fuel : nat) (p : positive) (k : nat) : option nat :=
+(* smallest k with den | 10^k (exists iff the value has a finite decimal expansion) *)
+Fixpoint find_k (fuel : nat) (den : N) (k : nat) (p10 : N) : option (nat * N) :=
   match fuel with
   | 0 => None
-  | S f => match p with
-           | xH => Some k
-           | xO p' => log2_exact f p' (S k)
-           | xI _ => None
-           end
+  | S f => if (p10 mod den =? 0)%N then Some (k, p10) else find_k f den (S k) (p10 * 10)%N
   end.
 
 Definition q_print (q : Q) : str :=
   let q := Qred q in
-  match log2_exact (S (Pos.to_nat (Pos.size (Qden q)))) (Qden q) 0 with
-  | None => [63]%N      (* not dyadic: not a printable f64 value *)
-  | Some k =>
-      let m := (Z.abs_N (Qnum q) * N.pow 5 (N.of_nat k))%N in
+  let den := Npos (Qden q) in
+  match find_k (S (N.to_nat (N.size den))) den 0 1%N with
+  | None => [63]%N      (* no finite decimal expansion: not a printable value *)
+  | Some (k, p10) =>
+      let m := (Z.abs_N (Qnum q) * (p10 / den))%N in
       let ds := dec_of_N m in
       let ds := repeat 48%N (S k - length ds) ++ ds in
       let ip := firstn (length ds - k) ds in
